@@ -399,6 +399,11 @@ int main(void) {
       if (c && c->cl) c->cl->viewOnly = a[1] ? TRUE : FALSE;
       print_state("vo"); continue;
     }
+    if (!strcmp(op, "rev")) {         /* what rfbReverseConnection does to the record rfbNewClient returned */
+      conn *c; n = sscanf(line + pos, "%d", &a[0]); c = by_id(a[0]);
+      if (c && c->cl) c->cl->reverseConnection = TRUE;
+      print_state("rev"); continue;
+    }
     if (!strcmp(op, "release")) {     /* rfbStartOnHoldClient */
       conn *c; n = sscanf(line + pos, "%d", &a[0]); c = by_id(a[0]);
       if (c && c->cl && c->cl->onHold) rfbStartOnHoldClient(c->cl);
